@@ -4,6 +4,7 @@ package vharness
 
 import (
 	"fmt"
+	"strings"
 
 	"github.com/douban/gobeansdb/store"
 	"github.com/douban/gobeansdb/vshim/vsched"
@@ -84,7 +85,7 @@ func c05Scenarios(tier string) []*Scenario {
 	var out []*Scenario
 	add := func(name string, run func(sc *Scenario, s *vsched.Sched) (*Mismatch, string)) {
 		c := cfgSched(name)
-		out = append(out, &Scenario{Property: "C05", Name: name, Cfg: c, Run: run})
+		out = append(out, &Scenario{Property: "C05", Name: name, Cfg: c, Run: run, Heavy: strings.HasPrefix(name, "G5") || strings.HasPrefix(name, "G6")})
 	}
 	wSetA := func(rec *Recorder) { rec.Set(1, "a", val(1, 0, "a", 0)) }
 	wDelA := func(rec *Recorder) { rec.Del(1, "a") }
@@ -106,11 +107,11 @@ func c05Scenarios(tier string) []*Scenario {
 
 func C05(job *Job, r *Report) {
 	r.Level = "model_checking"
-	r.Rule = "stateless model checking under the controlled scheduler: a store prepared with file0=[a1][a2], file1=[b1][c1], head=[c2] (so a pass over [0,1] relocates a's and b's current records and drops two superseded ones); threads: one GC pass (gcMgr.gc directly or through HStore.GC, optionally a canceller), one writer (set a / delete a / set b), one reader (get a, get b); EVERY interleaving at lock acquisitions, file-system calls, spawns (these bracket GC's newest-check, copy, tree repoint, hint write, source clear) with at most N preemptions (quick 3, thorough 4); oracle: C04's conditions with the documented relaxation (a read overlapping the pass may return an error or a miss, never a wrong or stale value), after the pass every key reads its last acknowledged write, again after Close + exit + reopen with and without the tree dump"
+	r.Rule = "stateless model checking under the controlled scheduler: a store prepared with file0=[a1][a2], file1=[b1][c1], head=[c2] (so a pass over [0,1] relocates a's and b's current records and drops two superseded ones); threads: one GC pass (gcMgr.gc directly or through HStore.GC, optionally a canceller), one writer (set a / delete a / set b), one reader (get a, get b); EVERY interleaving at lock acquisitions, file-system calls, spawns (these bracket GC's newest-check, copy, tree repoint, hint write, source clear) with at most N preemptions (quick 2, thorough 3; the two heavier scenarios - with a canceller thread, with two client writes - one less); oracle: C04's conditions with the documented relaxation (a read overlapping the pass may return an error or a miss, never a wrong or stale value), after the pass every key reads its last acknowledged write, again after Close + exit + reopen with and without the tree dump"
 	r.Assumptions = []string{"sequentially consistent interleavings at synchronisation/file-system granularity", "cgo calls atomic"}
-	bound := 3
+	bound := 2
 	if job.Tier != "quick" {
-		bound = 4
+		bound = 3
 	}
 	runScenarios(job, r, c05Scenarios(job.Tier), []int{bound}, -1)
 	r.Bounds["preemption_bound_completed"] = bound
